@@ -4,8 +4,12 @@ ID=$1; shift
 cd /verif
 git -C /repo diff --quiet || { echo "/repo dirty"; exit 2; }
 git -C /repo apply /verif/seeded/$ID/patch.diff || { echo "patch does not apply"; exit 2; }
+# evidence files describe runs on the unchanged tree only: keep them aside
+rm -rf /verif/.work/evidence.keep; cp -r /verif/evidence /verif/.work/evidence.keep
 for P in "$@"; do
   out=$(./check $P --tier quick 2>/dev/null | grep -E "^(VIOLATION|OK|KNOWN)" | head -3 | cut -c1-200)
   echo "SEED $ID CHECK $P -> $out"
 done
 git -C /repo checkout -- .
+rm -rf /verif/evidence; mv /verif/.work/evidence.keep /verif/evidence
+python3 /verif/tools/gen_all.py >/dev/null
